@@ -7,6 +7,7 @@ import (
 	"bufio"
 	"fmt"
 	"io"
+	"math"
 	"os"
 	"path/filepath"
 	"regexp"
@@ -21,6 +22,10 @@ func readRules(input io.Reader) ([]rule, error) {
 	rules := append([]rule(nil), defaultExclusions...)
 	scanner := bufio.NewScanner(input)
 	scanner.Split(bufio.ScanLines)
+	// A line of any length is still one line. With the default limit a single
+	// long line (a comment, say) made the whole file unreadable, and Pack then
+	// silently used the default rules only.
+	scanner.Buffer(make([]byte, 0, bufio.MaxScanTokenSize), math.MaxInt)
 	currentRuleIndex := len(defaultExclusions) - 1
 
 	for scanner.Scan() {
